@@ -212,6 +212,8 @@ def equal(case, a, b):
     if "q" not in b:
         return False
     from harness.props import c03
+    if len(a["cfg"]) != len(case["queries"]) or len(b["q"]) != len(case["queries"]):
+        return False                      # one answer per query on both sides
     for q, iv, ov in zip(case["queries"], a["cfg"], b["q"]):
         if ov[0] == "skip":
             continue
@@ -227,7 +229,7 @@ def equal(case, a, b):
             continue
         if iv != ov:
             # positions of an absent term: implementation raises TermMissingError; spec has no opinion
-            if q[0] == "pos" and b.get("spec"):
+            if q[0] == "pos" and b.get("spec") and not any(q[1] in (d or []) for d in case["docs"]):
                 continue
             return False
     return True
